@@ -11,7 +11,9 @@ TEXTS = ['', 'plain text', '{"a": 1}', '[1, 2, 3]', '{}', '[]', '{not json}', '[
          # serialized JSON longer than the 168-byte window of the HTML sniffing, compact and indented, objects and arrays
          '{"items": [' + ', '.join('{"id": %d, "name": "item number %d"}' % (i, i) for i in range(12)) + ']}',
          '[' + ', '.join(str(i) for i in range(120)) + ']',
-         '{\n  "a": "' + 'x' * 200 + '",\n  "b": [1, 2, 3]\n}', '[' + '"y", ' * 60 + '"z"]  ']
+         '{\n  "a": "' + 'x' * 200 + '",\n  "b": [1, 2, 3]\n}', '[' + '"y", ' * 60 + '"z"]  ',
+         # text that opens with one kind of bracket and closes with the other: a log line, a template, a wrapped page
+         '[INFO] worker started {pid=4711}', '{greeting}, please contact [support]', '{% raw %}<html><body>x</body></html>[end]', '[}', '{]']
 ACCEPTS = [None, 'text/html', 'application/json', '*/*', 'text/html;q=0.2, application/json;q=0.9', 'image/png', 'application/json;q=0', '',
            'text/*', 'text/html, application/xhtml+xml, application/xml;q=0.9, */*;q=0.8',
            'application/xhtml+xml, text/html;q=0.9', 'application/pdf, text/html;q=0.8', 'application/xml,application/xhtml+xml,text/html;q=0.9,*/*;q=0.5']
@@ -80,6 +82,39 @@ def gen_tabular(rng):
     return ['list', [['list', [scalar() for _ in range(w)]] for _ in range(rng.choice([1, 2, 3]))]]
 
 
+class Stamp(object):
+    def __init__(self, text):
+        self.text = text
+
+    def isoformat(self):
+        return self.text
+
+    def __repr__(self):
+        return 'Stamp'
+
+
+class TD(object):
+    def __init__(self, d):
+        self.d = d
+
+    def to_dict(self):
+        return self.d
+
+    def __repr__(self):
+        return 'TD'
+
+
+class AD(object):
+    def __init__(self, d):
+        self.d = d
+
+    def asdict(self):
+        return self.d
+
+    def __repr__(self):
+        return 'AD'
+
+
 def to_python(spec):
     import datetime
     from collections.abc import Mapping
@@ -95,15 +130,6 @@ def to_python(spec):
     if t == 'date':
         v = spec[1]
         if v.startswith('iso:'):
-            class Stamp(object):
-                def __init__(self, text):
-                    self.text = text
-
-                def isoformat(self):
-                    return self.text
-
-                def __repr__(self):
-                    return 'Stamp'
             return Stamp(v[4:])
         if 'T' in v:
             return datetime.datetime.fromisoformat(v)
@@ -119,26 +145,8 @@ def to_python(spec):
     if t == 'gen':
         return (i for i in range(3))
     if t == 'todict':
-        class TD(object):
-            def __init__(self, d):
-                self.d = d
-
-            def to_dict(self):
-                return self.d
-
-            def __repr__(self):
-                return 'TD'
         return TD(to_python(spec[1]))
     if t == 'asdict':
-        class AD(object):
-            def __init__(self, d):
-                self.d = d
-
-            def asdict(self):
-                return self.d
-
-            def __repr__(self):
-                return 'AD'
         return AD(to_python(spec[1]))
     if t == 'dict':
         return dict((k, to_python(v)) for k, v in spec[1])
@@ -404,10 +412,10 @@ def oracle(case, obs):
                     pass
                 if stripped_json and o['ctype'] != 'application/json':
                     return ('%s: serialized JSON text labelled %s' % (what, o['ctype']), 'label-json')
-                if not stripped_json and '<html' in t.encode('utf8')[:168].decode('utf8', 'replace') and not (t[:1] in '{[' and t[-1:] in '}]') \
+                if not stripped_json and '<html' in t.encode('utf8')[:168].decode('utf8', 'replace') and not ((t[:1] == '{' and t[-1:] == '}') or (t[:1] == '[' and t[-1:] == ']')) \
                         and o['ctype'] != 'text/html':
                     return ('%s: HTML document labelled %s' % (what, o['ctype']), 'label-html')
-                if not (t[:1] in '{[' and t[-1:] in '}]') and '<html' not in t[:168] and o['ctype'] != 'text/plain':
+                if not ((t[:1] == '{' and t[-1:] == '}') or (t[:1] == '[' and t[-1:] == ']')) and '<html' not in t[:168] and o['ctype'] != 'text/plain':
                     return ('%s: plain text labelled %s' % (what, o['ctype']), 'label-plain')
                 if not o['body_is_input']:
                     return ('%s: the text was not sent unchanged' % what, 'text-changed')
